@@ -13,6 +13,16 @@ Requests:
                         wf: both values are well-formed, i.e. in the canonical form the theorems assume)
   sort  <L …>        → ok <i,j,…> lossy=<0|1>   | err lossy=…      (indices into the input)
   mkset <L …>        → ok <i,j,…>               | err               (kept representative per slot)
+  errpair <a> <b>    → eq= qe= cmp= pmc= is= si= veq=
+                       (an error object is `<id> <cls> <msg hex> <raised 0|1> <wrapped ids i,j,… or ->`;
+                        is/si: errors.Is in both directions; veq: `==` of the presented script values)
+  sethist <L table> <init i,j,…> <ops> → one entry per state (after construction, then after each
+                       operation), joined by `|`: `<ok 0|1> <items i,j,…> <in bits over the table>`
+                       (ops: a<i> add, r<i> remove, d<i> delete(), c clear, o observe; comma-separated;
+                        an empty comma-separated list is `.` in these two requests)
+  maphist <L table> <init k:i,…> <ops> <probe keys k,…> → the same for a map: `<ok> <entries k:i,…> <has-key bits>`
+                       (ops: s<k>:<i> assign, d<k> delete(), p<k> pop, f<k>:<i> setdefault, b rejected key, c clear, o observe;
+                        keys hex, the empty key is `-`)
 -/
 namespace Risor.C15
 open Risor.Util
@@ -123,6 +133,104 @@ def showIdx (xs : List (Nat × Val)) : String :=
 
 def indexed (xs : List Val) : List (Nat × Val) := (List.range xs.length).zip xs
 
+/-! ### error objects and histories -/
+
+def parseIdx (s : String) : Option (List Nat) :=
+  if s = "-" then some [] else (s.splitOn ",").mapM fun t => t.toNat?
+
+def parseErrObj (s : String) : Option ErrObj :=
+  match (s.splitOn " ").filter (· ≠ "") with
+  | [i, c, m, r, w] =>
+    match i.toNat?, c.toNat?, fromHex m, parseIdx w with
+    | some i, some c, some m, some w => some ⟨⟨i, c, m, w⟩, r == "1"⟩
+    | _, _, _, _ => none
+  | _ => none
+
+def nth? {α : Type} : List α → Nat → Option α
+  | [], _ => none
+  | x :: _, 0 => some x
+  | _ :: xs, n + 1 => nth? xs n
+
+def parseSetOp (tab : List Val) (t : String) : Option (SetOp (Nat × Val)) :=
+  let arg := (t.drop 1).toString.toNat?.bind fun i => (nth? tab i).map fun v => (i, v)
+  match t.toList.head? with
+  | some 'a' => arg.map .add
+  | some 'r' => arg.map .remove
+  | some 'd' => arg.map .del
+  | some 'c' => some .clear
+  | some 'o' => some .observe
+  | _ => none
+
+def parseKI (tab : List Val) (s : String) : Option (List Nat × (Nat × Val)) :=
+  match s.splitOn ":" with
+  | [k, i] =>
+    match fromHex k, i.toNat? with
+    | some k, some i => (nth? tab i).map fun v => (k, (i, v))
+    | _, _ => none
+  | _ => none
+
+def parseMapOp (tab : List Val) (t : String) : Option (MapOp (Nat × Val)) :=
+  let rest := (t.drop 1).toString
+  match t.toList.head? with
+  | some 's' => (parseKI tab rest).map fun p => .set p.1 p.2
+  | some 'f' => (parseKI tab rest).map fun p => .setdefault p.1 p.2
+  | some 'd' => (fromHex rest).map .del
+  | some 'p' => (fromHex rest).map .pop
+  | some 'b' => some .badkey
+  | some 'c' => some .clear
+  | some 'o' => some .observe
+  | _ => none
+
+def splitList (s : String) : List String := if s = "." then [] else s.splitOn ","
+
+def showNats (xs : List Nat) : String :=
+  if xs.isEmpty then "." else ",".intercalate (xs.map toString)
+
+def showSetState (tab : List Val) (st : List (Nat × Val) × Bool) : String :=
+  b01 st.2 ++ " " ++ showNats (st.1.map (·.1)) ++ " " ++
+    String.join (tab.map fun v => showOB (contains (.set (st.1.map (·.2))) v))
+
+def showMapState (probes : List (List Nat)) (st : List (List Nat × (Nat × Val)) × Bool) : String :=
+  b01 st.2 ++ " " ++
+    (if st.1.isEmpty then "." else ",".intercalate (st.1.map fun e => toHexField e.1 ++ ":" ++ toString e.2.1)) ++ " " ++
+    String.join (probes.map fun k => showOB (contains (mapVal (st.1.map fun e => (e.1, e.2.2))) (.str k)))
+
+def handleH : List String → String
+  | ["errpair", a, b] =>
+    match parseErrObj a, parseErrObj b with
+    | some a, some b =>
+      " ".intercalate [
+        "eq=" ++ b01 (errObjEquals a b), "qe=" ++ b01 (errObjEquals b a),
+        "cmp=" ++ toString (errObjCompare a b), "pmc=" ++ toString (errObjCompare b a),
+        "is=" ++ b01 (goIs a.go b.go), "si=" ++ b01 (goIs b.go a.go),
+        "veq=" ++ b01 (equals a.val b.val)]
+    | _, _ => "error\tbad-error-object"
+  | ["sethist", tab, init, ops] =>
+    match parseField tab with
+    | some (.list tab) =>
+      let hashable := fun (p : Nat × Val) => isHashable p.2
+      let key := fun (p : Nat × Val) => keyOf p.2
+      match (splitList init).mapM (fun t => t.toNat?.bind fun i => (nth? tab i).map fun v => (i, v)),
+            (splitList ops).mapM (parseSetOp tab) with
+      | some init, some ops =>
+        if init.all hashable then
+          let s0 := buildSet key init
+          "|".intercalate (((s0, true) :: setTrace hashable key s0 ops).map (showSetState tab))
+        else "error\tunhashable-initial-item"
+      | _, _ => "error\tbad-history"
+    | _ => "error\tbad-value"
+  | ["maphist", tab, init, ops, probes] =>
+    match parseField tab with
+    | some (.list tab) =>
+      match (splitList init).mapM (parseKI tab), (splitList ops).mapM (parseMapOp tab),
+            (splitList probes).mapM fromHex with
+      | some init, some ops, some probes =>
+        let e0 : List (List Nat × (Nat × Val)) := mapRun [] (init.map fun p => MapOp.set p.1 p.2)
+        "|".intercalate (((e0, true) :: mapTrace e0 ops).map (showMapState probes))
+      | _, _, _ => "error\tbad-history"
+    | _ => "error\tbad-value"
+  | _ => "error\tunknown-request"
+
 def handle : List String → String
   | ["pair", a, b] =>
     match parseField a, parseField b with
@@ -157,6 +265,6 @@ def handle : List String → String
         "ok " ++ showIdx (buildSet (fun (p : Nat × Val) => keyOf p.2) (indexed xs))
       else "err"
     | _ => "error\tbad-value"
-  | _ => "error\tunknown-request"
+  | req => handleH req
 
 end Risor.C15
